@@ -21,6 +21,7 @@ type walkOpts struct {
 	PermBN  bool // BN254 Poseidon permutation uninterpreted
 	Pin     bool // shadow evaluation with the honest values
 	Extra   map[string]hookFn
+	Unhook  []string // leaf gadgets whose real body runs although field mode would replace them
 	NoShape bool
 	PIBits  int // >0: assume public inputs below 2^PIBits (honest-fit direction only)
 }
@@ -99,6 +100,9 @@ func walkVerifierWith(in *instance, o walkOpts, prep func(e *sym.Ctx)) *walkResu
 	}
 	for k, v := range o.Extra {
 		hooks[k] = v
+	}
+	for _, k := range o.Unhook {
+		delete(hooks, k)
 	}
 	setHooks(hooks)
 	defer clearHooks()
